@@ -227,7 +227,7 @@ pub fn strategy() -> impl Strategy<Value = Case> {
         any::<bool>(),
         schedule(),
         0u8..6,
-        (prop_oneof![3 => Just(0u8), 1 => 1u8..8], prop_oneof![6 => Just(None), 1 => (0u8..8).prop_map(Some)]),
+        (prop_oneof![3 => Just(0u8), 1 => 1u8..9], prop_oneof![6 => Just(None), 1 => (0u8..9).prop_map(Some)]),
         prop::bool::weighted(0.1),
     )
         .prop_flat_map(|(storage, schedule, reader_kind, (filter, filter2), systematic)| {
